@@ -706,12 +706,12 @@ func c10Static(c *Ctx, r *Report, a *Anchors) {
 func c10DirReq(c *Ctx, r *Report) {
 	r.rule("C10.DIRREQ", "the reader's completion of a directive use with the declared arguments it does not mention is not conditioned on Arg.Default being set: an omitted required argument reaches the validator as a nil entry")
 	n := 0
-	dirUseCompletionHook = func(fn *ssa.Function, mu *ssa.MapUpdate, ord int, condOnDefault bool) {
+	c.dirUseCompletionHook = func(fn *ssa.Function, mu *ssa.MapUpdate, ord int, condOnDefault bool) {
 		n++
 		r.check("C10.DIRREQ", fmt.Sprintf("%s: completion #%d covers arguments without a default", fnName(fn), ord), mu.Pos(), !condOnDefault,
 			"only arguments that have a default are completed: `@skip` without `if`, or a user directive with an omitted `T!` argument, passes validation and the selection is resolved")
 	}
-	defer func() { dirUseCompletionHook = nil }()
+	defer func() { c.dirUseCompletionHook = nil }()
 	sub := newReport("C10", r.Tier, c)
 	c16DefaultsBody(c, sub)
 	r.floor("C10.DIRREQ", "directive-use completions in the reader", n, 1)
